@@ -118,6 +118,13 @@ theorem full_printMin (mode : Mode) (e : E) (h : framesMin e ≤ MAX_DEPTH) :
     parse mode (printMin e) = .ok e :=
   full_round_trip mode _ e h
 
+/-- Parenthesising an expression the way the rules dictate — or more — never changes its parse:
+    every print that fits the depth limit parses exactly as the minimal print does. -/
+theorem full_paren_invariance (mode : Mode) (extra : E → Bool) (e : E) (h : framesWith extra e ≤ MAX_DEPTH) :
+    parse mode (printWith extra e) = parse mode (printMin e) := by
+  rw [full_round_trip mode extra e h]
+  exact (full_printMin mode e (Nat.le_trans (frames_min_le extra e) h)).symm
+
 /-- Whatever text was accepted, the tree it produced fits the depth limit when printed minimally:
     redundant parentheses only ever cost depth, they never buy any — for every construct of the
     grammar (an invariant of the run bounds the frames the minimal print of every partial tree
